@@ -618,8 +618,13 @@ func RunCoord(a CoordArgs) int {
 		return 2
 	}
 	var zero []string
-	for k, v := range probeList(ws, a.Prop) {
-		_ = k
+	for _, v := range probeList(ws, a.Prop) {
+		if strings.HasPrefix(v, "thorough:") {
+			if a.Tier != "thorough" {
+				continue
+			}
+			v = strings.TrimPrefix(v, "thorough:")
+		}
 		if probes[v] == 0 {
 			zero = append(zero, v)
 		}
